@@ -1005,7 +1005,14 @@ func CheckStrand(loc Location) Strand {
 	case Ordered:
 		return checkStrand(v)
 	case Complemented:
-		return StrandReverse
+		switch CheckStrand(v.Location) {
+		case StrandForward:
+			return StrandReverse
+		case StrandReverse:
+			return StrandForward
+		default:
+			return StrandBoth
+		}
 	default:
 		return StrandForward
 	}
